@@ -1,13 +1,14 @@
 (* Run.v — top-level dispatch: TL (TN machine :: args).
    Machines: 1 CMS mem, 3 Bloom mem, 5 HLL mem, 7 Cuckoo mem. *)
 From GX.Model Require Import Base.
-From GX.Runner Require Import RunCMS RunCMS2 RunBloom RunHLL RunCuckoo RunTopK RunRedisCMS RunRedisHLL.
+From GX.Runner Require Import RunCMS RunCMS2 RunBloom RunHLL RunCuckoo RunTopK RunRedisCMS RunRedisHLL RunRedisBloom.
 
 Definition run_case (c : tok) : tok :=
   match tok_L c with
   | TN 1 :: args => run_cms_case args
   | TN 2 :: args => run_rcms_case args
   | TN 3 :: args => run_bloom_case args
+  | TN 4 :: args => run_rbloom_case args
   | TN 5 :: args => run_hll_case args
   | TN 6 :: args => run_rhll_case args
   | TN 7 :: args => run_cuckoo_case args
